@@ -2,7 +2,8 @@ import AL.Model.ProjCall
 import AL.Model.ProjAction
 /-
   One file linted inside a project: the parser, the AST-only rules, and what the project adds — local reusable workflows
-  (AL.ProjCall) and local actions (AL.ProjAction). The two caches are independent of each other.
+  (AL.ProjCall), local actions (AL.ProjAction) and the configuration file's runner labels and configuration variables. The two
+  caches are independent of each other.
 -/
 namespace AL.ProjLint
 open AL AL.Ast
@@ -10,10 +11,15 @@ open AL AL.Ast
 structure Env where
   calls : AL.ProjCall.Env := {}
   actions : AL.ProjAction.Env := {}
+  /-- `self-hosted-runner.labels` of the configuration in effect, with Go's `path.Match` on them -/
+  labels : AL.Rules.LabelCfg := {}
+  /-- `config-variables` of the configuration in effect -/
+  configVars : Option (List String) := none
 
 /-- what the expression rule is told about the project -/
 def viewOf (env : Env) (lower : String → String) (isNumber : String → Bool) (w : Workflow) : AL.RuleExpr.ProjView :=
-  { AL.ProjCall.viewOf env.calls lower isNumber w with actionOutputs := AL.ProjAction.actionOutputs env.actions }
+  { AL.ProjCall.viewOf env.calls lower isNumber w with
+    actionOutputs := AL.ProjAction.actionOutputs env.actions, configVars := env.configVars }
 
 /-- rule_expression.go for a file linted inside a project -/
 def exprRule (env : Env) (lower : String → String) (isNum : String → Bool) (w : Workflow) : List AL.RuleExpr.Diag :=
@@ -24,7 +30,7 @@ def exprRule (env : Env) (lower : String → String) (isNum : String → Bool) (
 /-- `Linter.check` (parser + the modelled rules other than expression) for a file linted inside a project -/
 def lint (cfg : AL.PW.Cfg) (isNum urlOk : String → Bool) (env : Env) (doc : AL.Yaml.Node) : List AL.Rules.Diag :=
   let r := AL.PW.parse cfg doc
-  AL.Rules.stableSort (r.2.map AL.Rules.ofPErr ++ AL.Rules.rules cfg.lower isNum urlOk r.1 ++
+  AL.Rules.stableSort (r.2.map AL.Rules.ofPErr ++ AL.Rules.rules cfg.lower isNum urlOk r.1 env.labels ++
     AL.ProjCall.wcRule env.calls cfg.lower r.1 ++ (AL.ProjAction.simulate env.actions r.1).action)
 
 end AL.ProjLint
